@@ -7,5 +7,8 @@ v=sys.argv[1]
 s=open(v+'/DESIGN.md').read()
 t=subprocess.run(['python3',v+'/tools/seed_table.py'],capture_output=True,text=True).stdout
 a=s.index('<!-- SEED-TABLE-BEGIN -->')+len('<!-- SEED-TABLE-BEGIN -->'); b=s.index('<!-- SEED-TABLE-END -->')
-open(v+'/DESIGN.md','w').write(s[:a]+'\n'+t+s[b:])
+s=s[:a]+'\n'+t+s[b:]
+t2=subprocess.run(['python3',v+'/tools/status_table.py'],capture_output=True,text=True).stdout
+a=s.index('<!-- STATUS-TABLE-BEGIN -->')+len('<!-- STATUS-TABLE-BEGIN -->'); b=s.index('<!-- STATUS-TABLE-END -->')
+open(v+'/DESIGN.md','w').write(s[:a]+'\n'+t2+s[b:])
 PY
